@@ -688,7 +688,7 @@ def _resolve_receiver(ix, spec, f, recv, attrs, depth=0):
     if kind is None and isinstance(recv, ast.Name) and depth < 4:
         # a local bound more than once (one binding per interpreter, in consecutive blocks): the binding that reaches this use
         allb = [a for a in ast.walk(f.node) if isinstance(a, ast.Assign) and any(isinstance(t, ast.Name) and t.id == recv.id for t in a.targets)]
-        if len(allb) > 1:
+        if allb:
             b_ = _reaching_binding(f.node, recv, recv.id)
             if b_ is not None:
                 v = b_.value
@@ -698,7 +698,8 @@ def _resolve_receiver(ix, spec, f, recv, attrs, depth=0):
                 if kind is None and isinstance(v, ast.Call) and isinstance(v.func, ast.Name) and v.func.id == 'getattr' and len(v.args) >= 2 and isinstance(v.args[1], ast.Constant) \
                         and v.args[1].value in attrs and isinstance(v.args[0], ast.Name) and v.args[0].id == 'self':
                     kind = ('one', v.args[1].value)
-                return kind
+                if kind is not None or len(allb) > 1:
+                    return kind
     if kind is None and isinstance(recv, ast.Name):
         # a local: follow its single binding
         binds = [a for a in ast.walk(f.node) if isinstance(a, ast.Assign) and any(isinstance(t, ast.Name) and t.id == recv.id for t in a.targets)]
